@@ -59,7 +59,9 @@ def random_forest(rng, imports=True, links=True, max_units=4):
         partial = i >= nunits
         pool = []
         budget = [rng.randint(0, 14)]
-        root = Die("DW_TAG_partial_unit" if partial else "DW_TAG_compile_unit",
+        # the root of a unit that is not partial is usually a compile unit, now and then another kind
+        other = ["DW_TAG_type_unit", "DW_TAG_skeleton_unit"] if version >= 5 else []     # those need the DWARF 5 unit header
+        root = Die("DW_TAG_partial_unit" if partial else rng.choice(["DW_TAG_compile_unit"] * 5 + other),
                    [Attr("DW_AT_name", "DW_FORM_string", b"u%d" % i)], flag=True)
         for _ in range(rng.randint(0, 4)):
             root.children.append(rand_tree(rng, version, rng.randint(0, 3), budget, pool))
@@ -213,6 +215,13 @@ def shaped_forests():
     # empty units between and after real ones, in several versions
     out.append(("empty-units", Forest([cu(b"a", [var(b"av")]), Unit(None, 4), cu(b"b", [var(b"bv")], 5), Unit(None, 5), Unit(None, 2), cu(b"c", [], 3), Unit(None, 3)])))
     out.append(("only-empty", Forest([Unit(None, 4), cu(b"z", [var(b"zv")])])))
+    # units of every kind: only partial units are left out of the cooked view
+    def ku(tag, name, kids):
+        return Unit(Die(tag, [Attr("DW_AT_name", "DW_FORM_string", name)], kids, flag=True), 5)
+    kp = cu(b"kp", [var(b"kpv")], 4, True)
+    out.append(("unit-kinds", Forest([ku("DW_TAG_type_unit", b"kt", [Die("DW_TAG_structure_type", [Attr("DW_AT_name", "DW_FORM_string", b"S")], [var(b"m")])]),
+                                      cu(b"kc", [var(b"kcv"), imp(kp)]), kp,
+                                      ku("DW_TAG_skeleton_unit", b"ks", []), ku("DW_TAG_type_unit", b"kt2", [var(b"t2v")])])))
     # childless DIEs whose abbreviation claims children, with following siblings
     h = Die("DW_TAG_lexical_block", [], [], flag=True)
     out.append(("hollow", Forest([cu(b"h", [var(b"before"), h, var(b"after"), Die("DW_TAG_namespace", [], [Die("DW_TAG_lexical_block", [], [], flag=True), var(b"in_ns")]), var(b"last")])])))
